@@ -9,7 +9,10 @@ rm -rf $WT; git -C /repo worktree add --detach $WT HEAD >/dev/null 2>&1 || { ech
 {
 echo "confirmation of $ID at /repo $(git -C /repo rev-parse --short HEAD) on $(date -u +%FT%TZ)"
 cd $WT
-if [ -f $D/demo.rs ]; then cp $D/demo.rs tests/seed_demo.rs; [ -f $D/demo.xr ] && cp $D/demo.xr tests/ ; for f in $D/*.xr; do [ -f "$f" ] && cp "$f" tests/ 2>/dev/null; done; fi
+PROP=$(python3 -c "import json;print(json.load(open('$D/meta.json'))['property'].lower())")
+if [ -f $D/demo.rs ]; then cp $D/demo.rs tests/seed_demo.rs; for f in $D/*.xr; do [ -f "$f" ] && cp "$f" tests/ 2>/dev/null; done
+  # authors name the script as they like (demo.xr, demo_cXX.xr, cXX_demo.xr): provide all spellings
+  if [ -f $D/demo.xr ]; then cp $D/demo.xr tests/demo_$PROP.xr; cp $D/demo.xr tests/${PROP}_demo.xr; fi; fi
 echo "--- demo WITHOUT the change"
 if [ -f tests/seed_demo.rs ]; then CARGO_NET_OFFLINE=true cargo test --offline --test seed_demo 2>&1 | grep -E "^test |test result|error(\[|:)" | head -20; else echo "(no demo.rs; see notes.md)"; fi
 echo "--- applying patch"
